@@ -1384,6 +1384,10 @@ pub struct C08Cfg {
     /// number of steps executed before the follower goes away (scenario 1)
     pub before: usize,
     pub restart_follower_at_end: bool,
+    /// quiet cluster: the leader's snapshot covers its whole log when the follower connects and nobody writes afterwards, so
+    /// the follower's entire state comes from the installed snapshot; it is then restarted
+    #[serde(default)]
+    pub quiet: bool,
 }
 
 pub async fn exec_c08(script: Value) -> ExecResult {
@@ -1442,6 +1446,20 @@ pub async fn exec_c08(script: Value) -> ExecResult {
         }
         settle().await;
         advance(1_000).await;
+        if cfg.quiet {
+            // top up with single writes until a compaction has covered the whole log
+            for _ in 0..(cfg.base.node.snapshot_log_size * 2 + 4) {
+                let snap = match n1.app.raft_store.get_current_snapshot().await { Ok(Some(s)) => s.index, _ => 0 };
+                if snap > 0 && snap == metrics(&n1).last_log_index {
+                    sim::count("probe.quiet_snapshot_covers_log", 1);
+                    break;
+                }
+                let st = WStep::CfgSet { node: 1, t: 2, g: 1, d: 3, size: 10, same: false, typ: 0, desc: 0 };
+                let _ = do_step(&n1, &st, &mut m, 10_000).await;
+                settle().await;
+                advance(200).await;
+            }
+        }
         let snap_before = match n1.app.raft_store.get_current_snapshot().await { Ok(Some(s)) => s.index, _ => 0 };
         // connect the follower
         if cfg.scenario == 0 || cfg.kill {
@@ -1456,8 +1474,12 @@ pub async fn exec_c08(script: Value) -> ExecResult {
         let thr = cfg.base.node.snapshot_log_size;
         let mut extra = std::mem::take(&mut m);
         extra.uniq += 1_000_000;
+        let quiet = cfg.quiet;
         let writer = actix_rt::spawn(async move {
             let mut mm = extra;
+            if quiet {
+                return mm;
+            }
             // keep writing until the follower has (nearly) the leader's log, at most 40 x threshold writes
             for j in 0..(thr * 40 + 40) {
                 let st = WStep::CfgSet { node: 1, t: 2, g: 1, d: 3, size: 10, same: false, typ: 0, desc: 0 };
@@ -1523,12 +1545,17 @@ pub async fn exec_c08(script: Value) -> ExecResult {
         let m1 = metrics(&n1);
         if !ok {
             let state = format!("leader: last_log={} applied={} snapshot(before connect)={}; follower: {:?} last_log={} applied={} members={:?}", m1.last_log_index, m1.last_applied, snap_before, m2.state, m2.last_log_index, m2.last_applied, m2.membership_config.members);
-            if installed && m2.last_applied >= m1.last_applied.saturating_sub(2) {
+            // (async-raft refreshes a follower's metrics only with the next entries it receives: in a quiet cluster they still
+            // show the state before the install, so the installed snapshot's index counts as well)
+            let f_snap_index = n2.app.raft_store.get_current_snapshot().await.map(|s| s.map(|s| s.index).unwrap_or(0)).unwrap_or(0);
+            if installed && (m2.last_applied >= m1.last_applied.saturating_sub(2) || (f_snap_index > 0 && f_snap_index >= snap_before)) {
                 // root-cause signature of a recorded defect: raft state caught up through a snapshot, data not loaded
                 sim::count("probe.installed_snapshot_not_loaded", 1);
                 findings.push(Violation::new(&format!("{}.installed_snapshot_not_loaded", id), format!("60 simulated s after it was connected the follower has installed the leader's snapshot and reports the leader's log applied, but does not serve the data contained in the snapshot: {} [[{}]]", last, state)));
             } else {
-                vfail!(&format!("{}.follower_not_caught_up", id), "60 simulated s after it was connected the follower does not serve what the leader serves: {} [[{}]]", last, state);
+                let files = tokio::fs::list_files(&format!("{}/n2/", root));
+                let fsnap = n2.app.raft_store.get_current_snapshot().await.map(|s| s.map(|s| (s.index, s.term))).unwrap_or(None);
+                vfail!(&format!("{}.follower_not_caught_up", id), "60 simulated s after it was connected the follower does not serve what the leader serves: {} [[{}; follower snapshot={:?} files={:?}]]", last, state, fsnap, files.iter().map(|(n, l)| (n.rsplit('/').next().unwrap_or("").to_string(), *l)).collect::<Vec<_>>());
             }
         }
         // membership as recorded by the leader
@@ -1536,7 +1563,7 @@ pub async fn exec_c08(script: Value) -> ExecResult {
         let have: std::collections::BTreeSet<u64> = n2.app.raft_store.get_membership_config().await.map(|c| c.members.into_iter().collect()).unwrap_or_default();
         vensure!(want == have, &format!("{}.membership", id), "follower's stored membership {:?} differs from the leader's {:?}", have, want);
         // after a restart of the follower the equality holds (again)
-        if cfg.restart_follower_at_end {
+        if cfg.restart_follower_at_end || cfg.quiet {
             stop_node(2).await;
             let n2 = start_node(&root, 2, false, Some(1), &cfg.base.node).await.map_err(|e| Violation::new(&format!("{}.restart_failed", id), e.to_string()))?;
             let mut ok2 = false;
@@ -1575,7 +1602,34 @@ pub async fn exec_c08(script: Value) -> ExecResult {
                     }
                 }
                 let m2 = metrics(&n2);
-                if installed {
+                // Is the snapshot the follower restarted from the one it installed, or one it built itself from the state it
+                // had (without the installed data)? An installed one has the same records as the leader's snapshot of the same
+                // index: then the restart must serve its data and nothing is tolerated.
+                let mut snaps: BTreeMap<(String, u64), Vec<String>> = BTreeMap::new();
+                for nn in ["n1", "n2"] {
+                    for (name, _) in tokio::fs::list_files(&format!("{}/{}/", root, nn)) {
+                        if name.contains("snapshot_") {
+                            if let Ok(mut rd) = rnacos::raft::filestore::raftsnapshot::SnapshotReader::init(&format!("{}/{}.e{}/{}", root, nn, tokio::fs::current_epoch(nn), name.rsplit('/').next().unwrap_or(""))).await {
+                                let idx = rd.get_header().last_index;
+                                let mut keys = vec![];
+                                while let Ok(Some(r)) = rd.read_record().await {
+                                    keys.push(format!("{}/{}", r.tree, String::from_utf8_lossy(&r.key)));
+                                }
+                                keys.sort();
+                                snaps.insert((nn.to_string(), idx), keys);
+                            }
+                        }
+                    }
+                }
+                let newest_f = snaps.iter().filter(|(k, _)| k.0 == "n2").map(|(k, v)| (k.1, v.clone())).max_by_key(|x| x.0);
+                let restarted_from_installed = match &newest_f {
+                    Some((idx, keys)) => snaps.get(&("n1".to_string(), *idx)).map(|lk| lk == keys).unwrap_or(false),
+                    None => false,
+                };
+                if restarted_from_installed {
+                    sim::count("probe.restart_from_installed_snapshot_checked", 1);
+                }
+                if installed && !restarted_from_installed {
                     // consequence of the recorded defect: the follower never loaded the installed snapshot's data,
                     // compacted its own incomplete state later, and restarts from that
                     sim::count("probe.installed_snapshot_not_loaded_permanent", 1);
@@ -1637,6 +1691,7 @@ impl Check for C08 {
         cfg.scenario = rng.below(2) as u8;
         cfg.kill = rng.chance(0.5);
         cfg.restart_follower_at_end = rng.chance(0.6);
+        cfg.quiet = Rng::derive(seed, "C08.quiet", 0).chance(0.3);
         let n = rng.range(cfg.base.node.snapshot_log_size + 5, 90);
         cfg.before = rng.range(0, 10) as usize;
         let mut steps = vec![];
@@ -1852,7 +1907,15 @@ pub async fn exec_c19(script: Value) -> ExecResult {
                     } else {
                         by_id.insert(*hid, (k.clone(), content.clone()));
                         if let Some(p) = prev {
-                            vensure!(p > *hid, &format!("{}.history_order", id), "node {}: key {} history ids (newest first) not decreasing: {} then {}", n.id, k, p, hid);
+                            if p <= *hid && sim::counter("fault.kill") > 0 {
+                                // same recorded defect as duplicate ids after a kill -9 restart: the history-id section acknowledged before
+                                // its log write completed is lost, later publishes get ids below ones already stamped
+                                if findings.is_empty() {
+                                    findings.push(Violation::new(&format!("{}.duplicate_after_kill_restart", id), format!("node {}: key {} history ids (newest first) not decreasing: {} then {}; the run contains {} kill -9 restart(s) ({} issued-but-uncompleted file writes discarded)", n.id, k, p, hid, sim::counter("fault.kill"), sim::counter("disk.lost_on_crash"))));
+                                }
+                            } else {
+                                vensure!(p > *hid, &format!("{}.history_order", id), "node {}: key {} history ids (newest first) not decreasing: {} then {}", n.id, k, p, hid);
+                            }
                         }
                     }
                     prev = Some(*hid);
